@@ -22,11 +22,17 @@ The wide paths are relative to `C02.WideMul` / `WideDiv` (specifications of the 
 namespace Fpdec.Props.C04
 open Fpdec Fpdec.Model
 
-/-- specification of `i128_shifted_div_mod_floor` for a positive divisor (proved in `Lemmas/Wide.lean`, C16) -/
+/-- specification of `i128_shifted_div_mod_floor` (proved in `Lemmas/Wide.lean`, C16): for a positive divisor the floor quotient and
+    the non-negative remainder; for a negative divisor (live after the D13 repair) the same floor quotient, written with the negated
+    operands, and a remainder with the sign of the divisor -/
 def WideDiv : Prop :=
-  ∀ (prof : Profile) (x : Int) (p : Nat) (y : Int), (I128_MIN < x ∧ x ≤ I128_MAX) → p ≤ 38 → (0 < y ∧ y ≤ I128_MAX) →
+  (∀ (prof : Profile) (x : Int) (p : Nat) (y : Int), (I128_MIN < x ∧ x ≤ I128_MAX) → p ≤ 38 → (0 < y ∧ y ≤ I128_MAX) →
     i128ShiftedDivModFloor prof x p y =
-      .ok (if ((x * 10 ^ p).natAbs / y.natAbs : Nat) ≤ I128_MAX.toNat then some ((x * 10 ^ p) / y, (x * 10 ^ p) % y) else none)
+      .ok (if ((x * 10 ^ p).natAbs / y.natAbs : Nat) ≤ I128_MAX.toNat then some ((x * 10 ^ p) / y, (x * 10 ^ p) % y) else none)) ∧
+  (∀ (prof : Profile) (x : Int) (p : Nat) (y : Int), (I128_MIN < x ∧ x ≤ I128_MAX) → p ≤ 38 → (I128_MIN < y ∧ y < 0) →
+    i128ShiftedDivModFloor prof x p y =
+      .ok (if ((x * 10 ^ p).natAbs / y.natAbs : Nat) ≤ I128_MAX.toNat
+        then some ((-(x * 10 ^ p)) / (-y), -((-(x * 10 ^ p)) % (-y))) else none))
 
 /-- a coefficient result seen as a decimal with `n` fractional digits -/
 def outOptInt (n : Nat) (r : Outcome (Option Int)) : Outcome (Option (Int × Nat)) :=
@@ -160,30 +166,26 @@ theorem checkedDivRounded_spec (hw : WideDiv) (prof : Profile) (tm : Mode) (a : 
       unfold i128ShiftedDivRounded
       rw [specRoundQ_norm tm _ b hb0]
       by_cases hneg : b < 0
-      · have f1 : fitsI128 (-a) = true := by rw [fitsI128_iff]; unfold I128_MIN I128_MAX at *; omega
-        have f2 : fitsI128 (-b) = true := by rw [fitsI128_iff]; unfold I128_MIN I128_MAX at *; omega
-        simp only [hneg, if_true, negI128, plainI128_ok prof f1, plainI128_ok prof f2, Outcome.bind_ok, Outcome.pure_eq]
-        rw [hw prof (-a) (n + q - p) (-b) (by unfold I128_MIN I128_MAX at *; omega) hs38 (by unfold I128_MAX I128_MIN at *; omega)]
+      · simp only [hneg, if_true]
+        rw [hw.2 prof a (n + q - p) b ha hs38 ⟨hb.1, hneg⟩]
         simp only [Outcome.bind_ok]
-        have e : -(a * (10 : Int) ^ (n + q - p)) = -a * (10 : Int) ^ (n + q - p) := by rw [Int.neg_mul]
-        rw [e]
-        have key := wide_tail tm (-a * (10 : Int) ^ (n + q - p)) (-b) n (by omega) (by unfold I128_MAX I128_MIN at *; omega)
-        by_cases ht : ((-a * (10 : Int) ^ (n + q - p)).natAbs / (-b).natAbs : Nat) ≤ I128_MAX.toNat
+        have key := wide_tail_abs tm (-(a * (10 : Int) ^ (n + q - p))) (-b) n (by omega) (by unfold I128_MAX I128_MIN at *; omega)
+        rw [Int.natAbs_neg, Int.natAbs_neg] at key
+        by_cases ht : ((a * (10 : Int) ^ (n + q - p)).natAbs / b.natAbs : Nat) ≤ I128_MAX.toNat
         · simp only [ht, if_true, Option.bind_some] at key ⊢
-          cases hr : roundQuot tm (-a * 10 ^ (n + q - p) / -b) (IntTy.u128.cast (-a * 10 ^ (n + q - p) % -b)).toNat
-              (IntTy.u128.cast (-b)).toNat none with
+          rw [Int.natAbs_neg]
+          cases hr : roundQuot tm (-(a * 10 ^ (n + q - p)) / -b) (-(a * 10 ^ (n + q - p)) % -b).natAbs b.natAbs none with
           | none => rw [hr] at key; simpa [outOptInt] using key
           | some c => rw [hr] at key; simpa [outOptInt] using key
         · simp only [ht, if_false, Option.bind_none] at key ⊢
           simpa [outOptInt] using key
-      · simp only [hneg, if_false, Outcome.bind_ok, Outcome.pure_eq]
-        rw [hw prof a (n + q - p) b ha hs38 (by omega)]
+      · simp only [hneg, if_false]
+        rw [hw.1 prof a (n + q - p) b ha hs38 (by omega)]
         simp only [Outcome.bind_ok]
-        have key := wide_tail tm (a * (10 : Int) ^ (n + q - p)) b n (by omega) hb.2
+        have key := wide_tail_abs tm (a * (10 : Int) ^ (n + q - p)) b n (by omega) hb.2
         by_cases ht : ((a * (10 : Int) ^ (n + q - p)).natAbs / b.natAbs : Nat) ≤ I128_MAX.toNat
         · simp only [ht, if_true, Option.bind_some] at key ⊢
-          cases hr : roundQuot tm (a * 10 ^ (n + q - p) / b) (IntTy.u128.cast (a * 10 ^ (n + q - p) % b)).toNat
-              (IntTy.u128.cast b).toNat none with
+          cases hr : roundQuot tm (a * 10 ^ (n + q - p) / b) (a * 10 ^ (n + q - p) % b).natAbs b.natAbs none with
           | none => rw [hr] at key; simpa [outOptInt] using key
           | some c => rw [hr] at key; simpa [outOptInt] using key
         · simp only [ht, if_false, Option.bind_none] at key ⊢
@@ -244,20 +246,19 @@ theorem checkedDivRounded_spec (hw : WideDiv) (prof : Profile) (tm : Mode) (a : 
         · omega) (pow10_pos _)
     rw [hspec]
     by_cases hneg : b < 0
-    · have f1 : fitsI128 (-a) = true := by rw [fitsI128_iff]; unfold I128_MIN I128_MAX at *; omega
-      have f2 : fitsI128 (-b) = true := by rw [fitsI128_iff]; unfold I128_MIN I128_MAX at *; omega
-      simp only [hneg, if_true, negI128, plainI128_ok prof f1, plainI128_ok prof f2, Outcome.bind_ok]
-      rw [i128DivModFloor_pos prof (-a) (-b) f1 (by omega) (by unfold I128_MIN I128_MAX at *; omega)]
+    · rw [i128DivModFloor_neg prof a b ha hneg hb.1]
       simp only [Outcome.bind_ok]
       have hsp : Spec.specRoundQ tm a (b * (10 : Int) ^ (p - (n + q))) =
           Spec.specRound tm (-a) (-b * (10 : Int) ^ (p - (n + q))) := by
         have : b * (10 : Int) ^ (p - (n + q)) < 0 := Int.mul_neg_of_neg_of_pos hneg hts
         rw [specRoundQ_neg tm a _ this, Int.neg_mul]
       rw [hsp]
-      exact gt_tail prof tm (-a) (-b) n (p - (n + q)) (by unfold I128_MIN I128_MAX at *; omega)
+      have hz : (-(-a % -b) = 0) ↔ (-a % -b = 0) := by omega
+      have key := gt_tail prof tm (-a) (-b) n (p - (n + q)) (by unfold I128_MIN I128_MAX at *; omega)
         (by unfold I128_MIN I128_MAX at *; omega) hs
+      simp only [hz] at key ⊢
+      exact key
     · have f1 : fitsI128 a = true := by rw [fitsI128_iff]; omega
-      simp only [hneg, if_false]
       rw [i128DivModFloor_pos prof a b f1 (by omega) hb.2]
       simp only [Outcome.bind_ok]
       have hsp : Spec.specRoundQ tm a (b * (10 : Int) ^ (p - (n + q))) =
